@@ -17,56 +17,70 @@ scoped instance instDecEqExceptC14 {ε α : Type} [DecidableEq ε] [DecidableEq 
 
 variable (P : PyStr)
 
-/-! ## `Color.parse` -/
+/-! ## `Color.parse` (C06's `Color.parseT`) -/
 
-theorem parseNorm_err (c : List Char) (e : Exc) (h : UColor.parseNorm P false c = .error e) :
-    e = .colorParseError := by
-  unfold UColor.parseNorm at h
-  simp only [Bool.false_eq_true, if_false] at h
+theorem parseNormT_err (v : StyleVariant) (hv : v.rgbValueError = false) (c : List Char) (e : StyleErr)
+    (h : Color.parseNormT P v c = .error e) : e = .colorParse := by
+  unfold Color.parseNormT at h
+  simp only [hv, Bool.false_eq_true, if_false] at h
   repeat' split at h
   all_goals first | (cases h; done) | (cases h; rfl)
 
-theorem color_parse_err (s : List Char) (e : Exc) (h : UColor.parse P false s = .error e) :
-    e = .colorParseError :=
-  parseNorm_err P _ e h
-
-/-- with rich 9.10.0 as found (`vErr = true`, before fix c34676b) the only other exception is the `ValueError` of `int()` -/
-theorem parseNorm_err_old (c : List Char) (e : Exc) (h : UColor.parseNorm P true c = .error e) :
-    e = .colorParseError ∨ e = .valueError := by
-  unfold UColor.parseNorm at h
-  simp only [if_true] at h
+/-- with the code as found the only other exception is the `ValueError` of `int()` -/
+theorem parseNormT_err_old (v : StyleVariant) (c : List Char) (e : StyleErr) (h : Color.parseNormT P v c = .error e) :
+    e = .colorParse ∨ e = .valueError := by
+  unfold Color.parseNormT at h
   repeat' split at h
-  all_goals first | (cases h; done) | (cases h; simp)
+  all_goals first | (cases h; done) | (cases h; simp) | (cases h; cases v.rgbValueError <;> simp)
 
-/-! ## `Style.parse`, `Style.normalize` -/
+theorem parseT_color_err (v : StyleVariant) (hv : v.rgbValueError = false) (s : List Char) (e : StyleErr)
+    (h : Color.parseT P v s = .error e) : e = .colorParse :=
+  parseNormT_err P v hv _ e h
 
-theorem parseLoop_err (ws : List (List Char)) (st : Style.ParseState) (e : Exc)
-    (h : UStyle.parseLoop P false ws st = .error e) : e = .styleSyntaxError := by
-  fun_induction UStyle.parseLoop P false ws st
+theorem color_parse_err (s : List Char) (e : Exc) (h : UColor.parse P false s = .error e) :
+    e = .colorParseError := by
+  unfold UColor.parse at h
+  cases hp : Color.parseT P (variantOf false) s with
+  | ok c => rw [hp] at h; cases h
+  | error e' =>
+    rw [hp] at h; cases h
+    rw [parseT_color_err P _ rfl s e' hp]; rfl
+
+theorem parseNorm_err_old (s : List Char) (e : Exc) (h : UColor.parse P true s = .error e) :
+    e = .colorParseError ∨ e = .valueError := by
+  unfold UColor.parse at h
+  cases hp : Color.parseT P (variantOf true) s with
+  | ok c => rw [hp] at h; cases h
+  | error e' =>
+    rw [hp] at h; cases h
+    rcases parseNormT_err_old P _ _ e' hp with rfl | rfl
+    · exact .inl rfl
+    · exact .inr rfl
+
+/-! ## `Style.parse`, `Style.normalize` (C06's `Style.parseT`, `Style.normalizeT`) -/
+
+section
+variable (v : StyleVariant) (hv : v.rgbValueError = false)
+include hv
+
+theorem parseLoopT_err (ws : List (List Char)) (st : Style.ParseState) (e : StyleErr)
+    (h : Style.parseLoopT P v ws st = .error e) : e = .styleSyntax := by
+  fun_induction Style.parseLoopT P v ws st
   all_goals first
     | (cases h; done)
     | (cases h; rfl)
     | (rename_i ih; exact ih h)
-    | (rename_i hne hp; exact absurd (color_parse_err P _ _ hp) hne)
-
-theorem makeColor_err (w : Option (List Char)) (e : Exc) (h : UStyle.makeColor P false w = .error e) :
-    e = .colorParseError := by
-  cases w with
-  | none => cases h
-  | some w =>
-    simp only [UStyle.makeColor] at h
-    cases hp : UColor.parse P false w with
-    | ok c => rw [hp] at h; cases h
-    | error e' => rw [hp] at h; cases h; exact color_parse_err P _ _ hp
+    | (rename_i hne hp; exact absurd (parseT_color_err P v hv _ _ hp) hne)
 
 /-- `Style.parse` remembers only colour words that `Color.parse` accepted -/
 def ColorsOk (st : Style.ParseState) : Prop :=
-  (∀ w, st.color = some w → ∃ c, UColor.parse P false w = .ok c) ∧
-  (∀ w, st.bgcolor = some w → ∃ c, UColor.parse P false w = .ok c)
+  (∀ w, st.color = some w → ∃ c, Color.parseT P v w = .ok c) ∧
+  (∀ w, st.bgcolor = some w → ∃ c, Color.parseT P v w = .ok c)
 
-theorem parseLoop_colorsOk (ws : List (List Char)) (st st' : Style.ParseState)
-    (h0 : ColorsOk P st) (h : UStyle.parseLoop P false ws st = .ok st') : ColorsOk P st' := by
-  fun_induction UStyle.parseLoop P false ws st
+omit hv in
+theorem parseLoopT_colorsOk (ws : List (List Char)) (st st' : Style.ParseState)
+    (h0 : ColorsOk P v st) (h : Style.parseLoopT P v ws st = .ok st') : ColorsOk P v st' := by
+  fun_induction Style.parseLoopT P v ws st
   all_goals first
     | (cases h; done)
     | (cases h; exact h0)
@@ -76,44 +90,67 @@ theorem parseLoop_colorsOk (ws : List (List Char)) (st st' : Style.ParseState)
          | (rename_i c hp; exact ⟨h0.1, fun w hw => by cases hw; exact ⟨c, hp⟩⟩)
          | (rename_i c hp; exact ⟨fun w hw => by cases hw; exact ⟨c, hp⟩, h0.2⟩))
 
-theorem init_ok (st : Style.ParseState) (h : ColorsOk P st) : ∃ s, UStyle.init P false st = .ok s := by
+omit hv in
+theorem initT_ok (st : Style.ParseState) (h : ColorsOk P v st) :
+    ∃ s, Style.initT P v (st.color.map .str) (st.bgcolor.map .str) st.attributes st.link = .ok s := by
   obtain ⟨hc, hb⟩ := h
-  have h1 : ∃ c, UStyle.makeColor P false st.color = .ok c := by
-    cases hcol : st.color with
-    | none => exact ⟨none, rfl⟩
-    | some w => obtain ⟨c, hc'⟩ := hc w hcol; exact ⟨some c, by simp [UStyle.makeColor, hc', Except.map]⟩
-  have h2 : ∃ c, UStyle.makeColor P false st.bgcolor = .ok c := by
-    cases hcol : st.bgcolor with
-    | none => exact ⟨none, rfl⟩
-    | some w => obtain ⟨c, hb'⟩ := hb w hcol; exact ⟨some c, by simp [UStyle.makeColor, hb', Except.map]⟩
-  obtain ⟨c, h1⟩ := h1
-  obtain ⟨b, h2⟩ := h2
-  simp only [UStyle.init, h1, h2]
-  exact ⟨_, rfl⟩
+  unfold Style.initT
+  cases hcol : st.color with
+  | none =>
+    cases hbg : st.bgcolor with
+    | none => exact ⟨_, rfl⟩
+    | some w =>
+      obtain ⟨c, hc'⟩ := hb w hbg
+      simp only [Option.map, Style.makeColorT, hc', Except.map]
+      exact ⟨_, rfl⟩
+  | some w0 =>
+    obtain ⟨c0, hc0⟩ := hc w0 hcol
+    cases hbg : st.bgcolor with
+    | none =>
+      simp only [Option.map, Style.makeColorT, hc0, Except.map]
+      exact ⟨_, rfl⟩
+    | some w =>
+      obtain ⟨c, hc'⟩ := hb w hbg
+      simp only [Option.map, Style.makeColorT, hc0, hc', Except.map]
+      exact ⟨_, rfl⟩
 
-theorem style_parse_err (s : List Char) (e : Exc) (h : UStyle.parse P false s = .error e) :
-    e = .styleSyntaxError := by
-  unfold UStyle.parse at h
+theorem parseT_style_err (s : List Char) (e : StyleErr) (h : Style.parseT P v s = .error e) : e = .styleSyntax := by
+  unfold Style.parseT at h
   split at h
   · cases h
   · split at h
     · rename_i e' hl
       cases h
-      exact parseLoop_err P _ _ _ hl
+      exact parseLoopT_err P v hv _ _ _ hl
     · rename_i st hl
-      have hok : ColorsOk P st := parseLoop_colorsOk P _ _ _ ⟨fun w hw => (by cases hw), fun w hw => (by cases hw)⟩ hl
-      obtain ⟨s', hs'⟩ := init_ok P st hok
+      have hok : ColorsOk P v st := parseLoopT_colorsOk P v _ _ _ ⟨fun w hw => (by cases hw), fun w hw => (by cases hw)⟩ hl
+      obtain ⟨s', hs'⟩ := initT_ok P v st hok
       rw [hs'] at h
       cases h
 
-theorem normalize_ok (s : List Char) : ∃ r, UStyle.normalize P false s = .ok r := by
-  unfold UStyle.normalize
-  cases hp : UStyle.parse P false s with
+theorem normalizeT_ok (s : List Char) : ∃ r, Style.normalizeT P v s = .ok r := by
+  unfold Style.normalizeT
+  cases hp : Style.parseT P v s with
   | ok st => exact ⟨_, rfl⟩
   | error e =>
-    have := style_parse_err P s e hp
+    have := parseT_style_err P v hv s e hp
     subst this
     exact ⟨_, rfl⟩
+
+end
+
+theorem style_parse_err (s : List Char) (e : Exc) (h : UStyle.parse P false s = .error e) :
+    e = .styleSyntaxError := by
+  unfold UStyle.parse at h
+  cases hp : Style.parseT P (variantOf false) s with
+  | ok c => rw [hp] at h; cases h
+  | error e' =>
+    rw [hp] at h; cases h
+    rw [parseT_style_err P _ rfl s e' hp]; rfl
+
+theorem normalize_ok (s : List Char) : ∃ r, UStyle.normalize P false s = .ok r := by
+  obtain ⟨r, hr⟩ := normalizeT_ok P (variantOf false) rfl s
+  exact ⟨r, by unfold UStyle.normalize; rw [hr]; rfl⟩
 
 /-! ## `markup.render` -/
 
